@@ -458,6 +458,10 @@ func c18UnusableClientCA(env *Env, where, addr string, z *zoo, ein exporter.Expo
 	bad := [][]byte{{}, []byte("-----BEGIN CERTIFICATE-----\nMIIB\n-----END CERTIFICATE-----\n"), []byte("not a certificate")}[variant%3]
 	cin := collector.CollectorInput{Address: addr, Protocol: "tcp", MaxBufferSize: 65535, IsEncrypted: true,
 		ServerCert: z.SrvGood.CertPEM, ServerKey: z.SrvGood.KeyPEM, CACert: bad, TemplateTTL: 7200}
+	if variant%4 == 3 {
+		// ... or whose private key does not belong to its certificate (the client CA is in order)
+		cin.CACert, cin.ServerKey = z.CA.PEM, z.SrvNameOnly.KeyPEM
+	}
 	cp, err := collector.InitCollectingProcess(cin)
 	if err != nil {
 		env.Count("c18.unusable_client_ca_refused_at_init", 1)
@@ -508,6 +512,19 @@ func c18UnusableClientCA(env *Env, where, addr string, z *zoo, ein exporter.Expo
 		env.Sleep(2 * time.Second)
 		Block("close", func() { ep.CloseConnToCollector() })
 	}
+	// ... and a peer that does not encrypt at all: security settings are present, whatever state they are in
+	pt := gTemplate{Dom: domain + 1, ID: 256, Fields: []gField{{F: ipfixref.Field{ID: 7, Len: 2}, Known: true, Width: 2}}}
+	var pc net.Conn
+	var perr error
+	Block("dial", func() { pc, perr = env.Net.Dial("tcp", addr) })
+	if perr == nil {
+		for _, m := range [][]byte{pt.templateMsg(ipfixref.Header{}), pt.dataMsg(ipfixref.Header{}, []byte{1, 2})} {
+			Block("write", func() { pc.Write(m) })
+			env.Sleep(100 * time.Millisecond)
+		}
+		env.Sleep(time.Second)
+		pc.Close()
+	}
 	env.Sleep(time.Second)
 	stopped := make(chan struct{})
 	env.Go("stopper", func() {
@@ -517,11 +534,17 @@ func c18UnusableClientCA(env *Env, where, addr string, z *zoo, ein exporter.Expo
 	waitOrTimeout(stopped, 2*time.Minute)
 	cp.CloseMsgChan()
 	waitOrTimeout(consumed, time.Second)
-	mine := 0
+	mine, plain := 0, 0
 	for _, d := range got {
 		if d.Domain == domain {
 			mine++
 		}
+		if d.Domain == domain+1 {
+			plain++
+		}
+	}
+	if plain > 0 {
+		env.Violate("plaintext-accepted", "unusable-settings", "%s: a collector configured for TLS whose certificate material cannot be used delivered %d messages that arrived unencrypted", where, plain)
 	}
 	env.Logf("%s -> unusable client CA: init err=%v sent=%d delivered=%d", where, ierr != nil, sent, mine)
 	if mine > 0 {
